@@ -185,6 +185,9 @@ def cases(tier, seed):
     n = 160 if tier == "quick" else 4000
     for i in range(n):
         yield {"label": "values", "seed": seed * 1000003 + i, "n": 400, "kind": "random"}
+    for i in range(24 if tier == "quick" else 400):
+        yield {"label": "concurrent-first-use", "kind": "concurrent", "seed": seed * 7919 + i, "threads": [2, 4, 8][i % 3], "p": [0.0, 0.1, 0.3, 0.6][i % 4],
+               "n": [6, 40, 120][(i // 3) % 3]}
     for depth in ([50, 150, 240, 300, 450, 600] if tier == "quick" else [50, 100, 150, 200, 220, 240, 260, 280, 300, 330, 360, 400, 450, 500, 600]):
         for shape in ("list", "tuple", "dict", "mixed"):
             yield {"label": "deep", "seed": seed * 31 + depth, "kind": "deep", "depth": depth, "shape": shape}
@@ -195,6 +198,8 @@ def run_case(case):
         from checks.insitu import run_insitu
 
         return run_insitu(case, PROP)
+    if case.get("kind") == "concurrent":
+        return run_concurrent(case)
     rng = random.Random(case["seed"])
     viol = []
     counts = {"roundtrip": 0, "rejected": 0, "violation": 0, "skipped": 0, "rejected-recursion": 0}
@@ -234,6 +239,35 @@ def run_case(case):
             "sample": {"label": case["label"], "examples": samples}}
 
 
+def run_concurrent(case):
+    """T threads of a fresh interpreter serialize and deserialize the same values at once through the shared default
+    serializer (as map/parallel branches do); every thread's outcome and decoded value must equal the sequential ones."""
+    from checks.concurrent_codec import run_trial
+
+    rng = random.Random(case["seed"])
+    items = []
+    while len(items) < case["n"]:
+        v = gen(rng, 0, rng.choice([2, 3, 4]), adversarial=False)
+        try:
+            canon(v)
+        except RecursionError:
+            continue
+        items.append(v)
+    verdict, det = run_trial("c15", items, case["seed"], threads=case["threads"], p=case["p"])
+    viol = []
+    if verdict == "differs":
+        t, i, a, b = det["diffs"][0]
+        x = V(PROP, "C15/concurrent-use-differs/%s" % ("outcome" if a[0] != b[0] else "value"),
+              "thread %d of %d serializing %.120r concurrently (fresh interpreter) gave %.200r, sequentially %.200r; %d differing conversions"
+              % (t, case["threads"], items[i], b, a, det["n_diffs"]))
+        x["case"] = case
+        viol.append(x)
+    return {"execs": 1, "classes": {"concurrent|T%d|p%s|n%d|%s" % (case["threads"], case["p"], case["n"], verdict)}, "violations": viol,
+            "obs": {"concurrent_trials": 1 if verdict != "inconclusive" else 0, "concurrent_conversions": det.get("conversions", 0),
+                    "concurrent_yield_hits": det.get("hits", 0), "concurrent_inconclusive": 1 if verdict == "inconclusive" else 0},
+            "sample": {"label": "concurrent-first-use", "threads": case["threads"], "p": case["p"], "verdict": verdict, "detail": str(det)[:300]}}
+
+
 RULE = ("seeded typed-grammar generator over the serializer's stated domain (exact-type None/bool/int to 4300 digits/float incl. +-inf, nan, -0.0/"
         "str incl. lone surrogates/bytes/UUID/Decimal incl. NaN, sNaN, Inf/datetime naive, UTC, arbitrary fixed offsets, fold/date; lists, tuples, "
         "string-keyed dicts, BatchResults to depth 8; chains to depth 600) plus adversarial classes (envelope look-alikes, empty containers, "
@@ -245,4 +279,4 @@ if __name__ == "__main__":
     sys.exit(harness.main_for("checks.c15", PROP, "exploration", RULE,
                               ["canon() is the equality oracle (exact types at every level; Decimal compared by its string form; datetime by isoformat+utcoffset+fold)",
                                "subclasses (IntEnum, namedtuple, OrderedDict, bytearray) are outside the stated grammar and not generated"],
-                              {"values_roundtripped": 20000, "insitu_contract_evaluations_serialize": 50}))
+                              {"values_roundtripped": 20000, "insitu_contract_evaluations_serialize": 50, "concurrent_trials": 10}))
